@@ -31,6 +31,20 @@ def onWayToTake : RPc → Bool
   | .loopTop | .enable | .take1 | .take2 => true
   | _ => false
 
+/-- 1 while a `modify` has applied `f` but not yet returned `Ok`. -/
+def applied : SPc → Nat
+  | .modNotify _ => 1
+  | _ => 0
+
+/-- Number of `modify` calls that returned `Ok`. -/
+def okCount (sends : List Bool) : Nat := (sends.filter id).length
+
+@[simp] theorem okCount_snoc_true (l : List Bool) : okCount (l ++ [true]) = okCount l + 1 := by
+  simp [okCount, List.filter_append]
+
+@[simp] theorem okCount_snoc_false (l : List Bool) : okCount (l ++ [false]) = okCount l := by
+  simp [okCount, List.filter_append]
+
 /-- Which `Notified` states are possible at which program point of `recv`. -/
 def futOk : RPc → Fut → Bool
   | .idle, f | .created, f | .loopTop, f | .gone, f => f == .absent
@@ -169,5 +183,68 @@ theorem inv_run (s : State) (acts : List Act) (h : Inv s) : Inv (run s acts) := 
 
 /-- The invariant holds in every state reachable by any interleaving of the atomic steps. -/
 theorem inv_reachable (acts : List Act) : Inv (run init acts) := inv_run init acts inv_init
+
+/-! ### second invariant: `Ok` results of `modify` ↔ applied updates -/
+
+/-- Every `Ok` returned by `modify` stands for exactly one applied update, and vice versa (a `modify` that has
+applied `f` and not yet returned counts through `applied`). -/
+def SendsInv (s : State) : Prop := okCount s.sends + applied s.spc = s.merged.length
+
+theorem rStep_sender_fields (s : State) :
+    (rStep s).sends = s.sends ∧ (rStep s).merged = s.merged ∧ (rStep s).spc = s.spc := by
+  unfold rStep
+  split
+  · simp
+  · simp
+  · unfold enableFut; split <;> simp
+  · split <;> simp
+  · split <;> simp
+  · simp
+  · unfold dropNotified; split <;> (try split) <;> simp
+  · unfold awaitStep pollNotified dropNotified enableFut
+    split <;> split <;> (try split) <;> (try split) <;> (try split) <;> simp
+  · unfold awaitStep pollNotified dropNotified enableFut
+    split <;> split <;> (try split) <;> (try split) <;> (try split) <;> simp
+  · simp
+  · simp
+
+theorem cancel_sender_fields (s : State) :
+    (cancel s).sends = s.sends ∧ (cancel s).merged = s.merged ∧ (cancel s).spc = s.spc := by
+  unfold cancel
+  split
+  · simp
+  · unfold dropNotified; split <;> (try split) <;> simp
+  · simp
+
+theorem sendsInv_step (s : State) (a : Act) (h : SendsInv s) : SendsInv (step s a) := by
+  unfold SendsInv at *
+  cases a with
+  | callModify x => simp only [step]; split <;> simp_all [applied]
+  | callDropSender => simp only [step]; split <;> simp_all [applied]
+  | callRecv => simp only [step]; split <;> simp_all [applied]
+  | callDropReceiver => simp only [step]; split <;> simp_all [applied]
+  | cancel => obtain ⟨h1, h2, h3⟩ := cancel_sender_fields s; simp only [step]; rw [h1, h2, h3]; exact h
+  | rStep => obtain ⟨h1, h2, h3⟩ := rStep_sender_fields s; simp only [step]; rw [h1, h2, h3]; exact h
+  | sStep =>
+    simp only [step, sStep]
+    split
+    · split <;> simp_all [applied]
+    · rename_i x hx; rw [hx] at h; simp [applied] at h ⊢; omega
+    · rename_i has hx; rw [hx] at h; simp only [applied] at h
+      split
+      · unfold notifyOne; split <;> simp [applied] <;> omega
+      · simp [applied]; omega
+    · simp_all [applied]
+    · unfold notifyOne; split <;> simp_all [applied]
+    · exact h
+    · exact h
+
+theorem sendsInv_reachable (acts : List Act) : SendsInv (run init acts) := by
+  have : ∀ (acts : List Act) (s : State), SendsInv s → SendsInv (run s acts) := by
+    intro acts
+    induction acts with
+    | nil => intro s h; exact h
+    | cons a rest ih => intro s h; exact ih (step s a) (sendsInv_step s a h)
+  exact this acts init (by simp [SendsInv, init, okCount, applied])
 
 end ScyllaVerif.MergeChannel
